@@ -137,6 +137,34 @@ pub fn check(ctx: &mut Ctx, case: &Case) -> Option<Run> {
     if total < nlab * nstate {
         ctx.violation("fewer-frames-than-states", detail(J::obj().set("frames", total)));
     }
+    // --- the same utterance pulled out of a generator (some frames stepped, the rest in one
+    // go) is total and frame-exact as well
+    if case.lines.is_none() && total >= 2 && total % 4 == 1 {
+        let k = 1 + total % 3.min(total - 1);
+        let r = guard(|| {
+            let mut g = engine.generator(case.labels.clone()).map_err(|e| format!("{}", e))?;
+            let mut n = 0usize;
+            let mut buf = vec![0.0; fperiod];
+            for _ in 0..k {
+                n += g.generate_step(&mut buf);
+            }
+            Ok::<usize, String>(n + g.generate_all().len())
+        });
+        ctx.count("pulled_from_a_generator_in_two_parts", 1.0);
+        match r {
+            Err(p) if p.in_target() => {
+                ctx.setadd("panic_sites", &p.sig());
+                ctx.violation(&p.sig(), detail(J::obj().set("panic", format!("{}:{} {}", p.file, p.line, p.msg)).set("history", format!("generator, {} generate_step, generate_all", k))));
+            }
+            Err(p) => ctx.inconclusive(&format!("harness panic {}:{} {}", p.file, p.line, p.msg)),
+            Ok(Err(e)) => ctx.violation("synthesize-err-on-wellformed-labels", detail(J::obj().set("err", e))),
+            Ok(Ok(n)) => {
+                if n != fperiod * total {
+                    ctx.violation("length", detail(J::obj().set("len", n).set("fperiod", fperiod).set("sum_durations", total).set("history", format!("generator, {} generate_step, generate_all", k))));
+                }
+            }
+        }
+    }
     if nlab == 0 && !run.wave.is_empty() {
         ctx.violation("empty-labels-nonempty-wave", detail(J::obj().set("len", run.wave.len())));
     }
